@@ -20,6 +20,8 @@ def call_model(I, fn, args, kwargs):
         (x,) = args
         if has_gitems(x):
             x = as_glist(x)
+        elif isinstance(x, SetList):
+            return len(x)
         if isinstance(x, WhereResult):
             return I.count_true([I.truth(m) for m in x.mask.items])
         if isinstance(x, FD):
